@@ -57,6 +57,16 @@ def wiring(P, R):
         cr = [s for s in cb.calls('conf_read')] if cb else []
         okr = bool(cr) and is_var(cr[0].ev['args'][0], 'config_filename') and cb.path_avoiding(None, lambda t: t in cr, from_entry=True) is None
         R.ob('C17.WIRE.1', okr, cr[0] if cr else (cb or main), 'the SIGUSR1 callback re-reads the configured file on every path', key='sigusr1-reload')
+        # "the configured file": the name is the one the command line gave - an option handler stores its own argument -
+        # and nothing rewrites it afterwards (a name resolved once at start-up follows a symbolic link's OLD target)
+        if cr and is_var(cr[0].ev['args'][0]):
+            nm = cr[0].ev['args'][0]['name']
+            for f2 in P.unit_fns(main.unit):
+                for t in f2.stores():
+                    if t.ev['k'] == 'store' and is_var(t.ev.get('lhs'), nm):
+                        rhs = t.ev.get('rhs')
+                        okw = is_var(rhs) and rhs['name'] in f2.params
+                        R.ob('C17.WIRE.1', okw, t, 'the name of the file to re-read is only ever set from a handler\'s own argument (%s = %s in %s)' % (nm, sx(rhs), f2.name), key='config-name-writer')
         st = [t for t in main.stores() if (t.ev.get('rhs') or {}).get('ev') == ev[0].ev['id']]
         added = [t for t in main.calls('event_add') if st and is_var(t.ev['args'][0], st[0].ev['lhs']['name'])]
         R.ob('C17.WIRE.1', bool(added), added[0] if added else ev[0], 'the SIGUSR1 event is armed', key='sigusr1-armed', nontrivial=False)
